@@ -148,6 +148,12 @@ def module_source(cases):
   return '\n'.join(head + [''] + body) + '\n', names
 
 _modcount = [0]
+_loaded = []
+def drop_modules():
+  """forget the generated modules of finished batches"""
+  for m in _loaded: sys.modules.pop(m, None)
+  del _loaded[:]
+
 def load_module(workdir, cases):
   src, names = module_source(cases)
   _modcount[0] += 1
@@ -157,6 +163,7 @@ def load_module(workdir, cases):
   spec = importlib.util.spec_from_file_location(modname, path)
   mod = importlib.util.module_from_spec(spec)
   sys.modules[modname] = mod
+  _loaded.append(modname)
   spec.loader.exec_module(mod)
   return mod, names
 
